@@ -36,6 +36,50 @@ theorem row_traverse_range_norepeat (r : RowObj) (h : MapOk r) (start : Nat) (en
 theorem table_rows_expanded (t : Tbl) (h : Inv t) : yieldOdfRows t.rows.runs = expand t.rows.runs :=
   yieldOdfRows_ok _ h.rows.2
 
+/-- **`Table.traverse(start, end)`** (behind `get_rows`, `get_values`, `iter_values`, `get_cells` with coordinates): what is
+    yielded is addressed `y` inside the bounds, is the `y`-th row of the expanded table — also when the range begins strictly
+    inside a repeated run — and carries no repeat count … -/
+theorem table_traverse_range_sound (t : Tbl) (h : Inv t) (start : Nat) (end_ : Option Nat) (y : Nat) (d : RowD) (r : Option Nat)
+    (hm : (y, d, r) ∈ tableTraverse t start end_) :
+    start ≤ y ∧ (∀ e, end_ = some e → y ≤ e) ∧ r = none ∧ (expand t.rows.runs)[y]? = some d := by
+  unfold tableTraverse at hm
+  rw [yieldOdfRows_ok _ h.rows.2] at hm
+  simp only [List.mem_filter, List.mem_map, Bool.and_eq_true, decide_eq_true_eq] at hm
+  obtain ⟨⟨p, hp, he⟩, hs, hb⟩ := hm
+  obtain ⟨pd, pi⟩ := p
+  simp only [Prod.mk.injEq] at he
+  obtain ⟨rfl, rfl, rfl⟩ := he
+  have hz := List.mem_zipIdx hp
+  refine ⟨hs, ?_, rfl, ?_⟩
+  · intro e he; subst he; simpa using hb
+  · simp only [Nat.zero_le, Nat.sub_zero, true_and, Nat.zero_add] at hz
+    rw [List.getElem?_eq_getElem hz.1]
+    exact congrArg some hz.2.symm
+
+/-- … every row of the table inside the bounds is yielded, and in increasing order of `y` (each once) -/
+theorem table_traverse_range_complete (t : Tbl) (h : Inv t) (start : Nat) (end_ : Option Nat) (y : Nat) (d : RowD)
+    (hs : start ≤ y) (he : ∀ e, end_ = some e → y ≤ e) (hd : (expand t.rows.runs)[y]? = some d) :
+    (y, d, none) ∈ tableTraverse t start end_ ∧
+    (tableTraverse t start end_).Pairwise (fun a b => a.1 < b.1) := by
+  unfold tableTraverse
+  rw [yieldOdfRows_ok _ h.rows.2]
+  constructor
+  · simp only [List.mem_filter, List.mem_map, Bool.and_eq_true, decide_eq_true_eq]
+    refine ⟨⟨(d, y), ?_, rfl⟩, hs, ?_⟩
+    · rw [List.mk_mem_zipIdx_iff_getElem?]; simpa using hd
+    · cases end_ with
+      | none => rfl
+      | some e => simpa using he e rfl
+  · apply List.Pairwise.filter
+    rw [List.pairwise_map]
+    have := List.pairwise_lt_range' (s := 0) (n := (expand t.rows.runs).length) (step := 1)
+    -- the indices of zipIdx are 0, 1, 2, …
+    have hz : ((expand t.rows.runs).zipIdx).map (·.2) = List.range' 0 (expand t.rows.runs).length := by
+      rw [List.zipIdx_map_snd]
+    have hp : (((expand t.rows.runs).zipIdx).map (·.2)).Pairwise (· < ·) := by rw [hz]; exact List.pairwise_lt_range'
+    rw [List.pairwise_map] at hp
+    exact hp
+
 /-- `get_value` / `get_cell` address the cell they are asked for, for every integer
     coordinate; outside the populated area the answer is the empty cell (nothing fails,
     nothing grows) -/
